@@ -439,7 +439,9 @@ def run(tier, cmd):
                 assumptions=['values of the six newtypes that enter an analysed function from outside satisfy their invariant '
                              '(assume/guarantee: every construction site in every configuration is an obligation here)'],
                 explanation='')
-    cfgs = ['K1', 'K2', 'K3'] + (['K4'] if tier == 'thorough' else [])
+    # K1r / K2r: the same source with debug assertions off (what a release build compiles): range guards written as
+    # `debug_assert!` or under `cfg!(debug_assertions)` do not exist there
+    cfgs = ['K1', 'K2', 'K3', 'K1r', 'K2r'] + (['K4'] if tier == 'thorough' else [])
     Fs = load_configs(chk, cfgs, required=('K1', 'K2'))
     total_entries = 0
     for cfg, F in sorted(Fs.items()):
@@ -452,7 +454,7 @@ def run(tier, cmd):
             chk.extra.setdefault('unmodelled_callees', {})[cfg] = sorted(A.unmodelled)[:20]
             guarded(chk, '%s/ctor-sites/%s' % (PID, cfg), 'R4.2 construction site', lambda F=F, A=A: r42_sites(chk, F, A))
         guarded(chk, '%s/impl-range/%s' % (PID, cfg), 'R4.3 impl inventory', lambda F=F: r43_impl_ranges(chk, F))
-        if cfg in ('K1', 'K2') or tier == 'thorough':
+        if cfg in ('K1', 'K2', 'K1r', 'K2r') or tier == 'thorough':
             guarded(chk, '%s/exactness/%s' % (PID, cfg), 'R4.4 exactness', lambda F=F: r44_exactness(chk, F))
     guarded(chk, '%s/cfg-hygiene' % PID, 'R4.5 configuration hygiene', lambda: r45_cfg_hygiene(chk, Fs))
     if tier == 'thorough':
